@@ -41,10 +41,13 @@ def new_interp(prog, remotable):
             v = v.fields[0]
         return getattr(v, 'ident', None)
 
+    IDS = {'tcp': 900, 'proxy77': 77, 'stranger': 55, 'myself': 1000}
+
     def m_id(I, st, f, args, fr):
-        who = ident_of(I, st, args[0])
-        return I.ret(st, Enum('ActorId', 'Local', 0, (I.mk_int(int(str(who)[1:]) if str(who).startswith('a') else 0, 'u64'),)))
-    I.override.append((re.compile(r'(^|::)ActorCell::get_id$'), m_id))
+        who = str(ident_of(I, st, args[0]))
+        n = IDS.get(who, int(who[1:]) if who.startswith('a') and who[1:].isdigit() else (int(who[3:]) + 500 if who.startswith('new') else 0))
+        return I.ret(st, Enum('ActorId', 'Local', 0, (I.mk_int(n, 'u64'),)))
+    I.override.append((re.compile(r'(^|::)ActorCell::get_id$|(^|::)ActorRef::<.*>::get_id$'), m_id))
 
     def m_name(I, st, f, args, fr):
         who = ident_of(I, st, args[0])
@@ -55,6 +58,18 @@ def new_interp(prog, remotable):
         v = models_std.deref_val(I, st, args[0])
         return I.ret(st, v.fields[0])
     I.override.append((re.compile(r'(^|::)ActorId::pid$'), m_pid))
+
+    @I.model(r'(^|::)ActorCell::kill$|(^|::)ActorRef::<.*>::kill$', 'ActorCell::kill: recorded')
+    def m_kill(I, st, f, args, fr):
+        tgt = models_std.deref_val(I, st, args[0])
+        while isinstance(tgt, Agg) and tgt.fields:
+            tgt = tgt.fields[0]
+        st.emit('KILL', tgt)
+        return I.ret(st, UNIT)
+
+    @I.model(r'^<Box<dyn (std::error::)?Error.*> as From<.*>>::from$', 'boxed error')
+    def m_berr(I, st, f, args, fr):
+        return I.ret(st, Opaque('boxed-error', info=args[0]))
 
     def m_send(I, st, f, args, fr):
         st.emit('SEND_CONTROL', args[1])
@@ -155,7 +170,71 @@ def check(ctx, prog):
                     lp.record(ctx, name, s, claims, 'C20.announce', on_cex=cex)
     for w in ('spawn_announced', 'non_remotable_ignored', 'terminate_announced', 'group_change_announced'):
         ctx.note_witness('C20.announce.' + w, w in seen)
+    check_child_exits(ctx, prog)
     ctx.bounds['announce'] = 'pid-lifecycle Spawn / Terminate of one actor and group Join / Leave of up to two actors, each actor remotable or not, advertised set empty / {1} / {1, 2}'
+
+
+def check_child_exits(ctx, prog):
+    """the session's own children: the transport actor and the proxies. When the transport actor exits or fails the session stops itself (its proxies are
+    its children and go with it, C05); when a proxy exits it leaves the table and is stopped; a proxy that failed is killed and replaced by a fresh proxy for the
+    same pid; an unknown child changes nothing"""
+    import C20_mirror
+    body = prog.find_fn(FN)
+    seen = set()
+    for who in ('tcp', 'proxy77', 'stranger'):
+        for evname in ('ActorTerminated', 'ActorFailed'):
+            I = new_interp(prog, {})
+            C20_mirror.install_spawn(I)
+            st0 = State()
+            authed = [(lab, av) for lab, av, okk, close in fsm.auth_states(prog, I, st0) if okk]
+            st = st0.fork()
+            ra = Agg('HashMap', [Agg('()', (I.mk_int(77, 'u64'), Opaque('ActorRef', ident='proxy77'))), Agg('()', (I.mk_int(78, 'u64'), Opaque('ActorRef', ident='proxy78')))])
+            sc = st.alloc(gates.session_state(prog, I, st, authed[0][1], remote_actors=ra))
+            selfc = gates.session_self(prog, st)
+            cell = Agg('ActorCell', (Opaque('props', ident=who),))
+            if evname == 'ActorTerminated':
+                ev = cl.variant(prog, 'SupervisionEvent', 'ActorTerminated', (cell, models_std.NONE, models_std.NONE))
+            else:
+                ev = cl.variant(prog, 'SupervisionEvent', 'ActorFailed', (cell, Opaque('err')))
+            st, coro = lc.make_coro(I, st, prog, FN, [Ref(selfc, ()), Opaque('ActorRef', ident='myself'), ev, Ref(sc, (), True)])
+            cc = st.alloc(coro)
+            done = gates.drive(I, st, cc, 6)
+            ctx.absorb(I)
+            ctx.paths += len(done)
+            for k, (s, rk, v) in enumerate(done):
+                name = 'child_exit.%s.%s.path%d' % (who, evname, k)
+                rp = {'child': who, 'event': evname}
+                cex = (lambda rp=rp: (lambda m: replay_child(rp)))()
+                if rk != 'ready':
+                    lp.record(ctx, name, s, {'handler_completes': False}, 'C20.child_exit', on_cex=cex)
+                    continue
+                tab = C20_mirror.table(I, s, prog, sc)
+                stops_self = [e for e in s.trace if e[0] == 'STOP' and getattr(e[1], 'ident', None) == 'myself']
+                stopped = [e[1] for e in s.trace if e[0] == 'STOP_PROXY'] + [getattr(e[1], 'ident', None) for e in s.trace if e[0] in ('STOP', 'KILL') and getattr(e[1], 'ident', None) != 'myself']
+                spawned = [e for e in s.trace if e[0] == 'SPAWNED']
+                failed = [e for e in s.trace if e[0] == 'SPAWN_FAILED']
+                res_ok = isinstance(v, Enum) and v.variant == 'Ok'
+                claims = {}
+                if who == 'tcp':
+                    claims['session_stops_itself_when_its_transport_is_gone'] = len(stops_self) == 1 and tab == {77: 'proxy77', 78: 'proxy78'}
+                    seen.add('transport_gone')
+                elif who == 'stranger':
+                    claims['unknown_child_changes_nothing'] = not stops_self and tab == {77: 'proxy77', 78: 'proxy78'} and not stopped and not spawned
+                elif evname == 'ActorTerminated':
+                    claims['exited_proxy_leaves_the_table_and_is_stopped'] = tab == {78: 'proxy78'} and stopped == ['proxy77'] and not stops_self and not spawned
+                    seen.add('proxy_exit')
+                else:
+                    # a failed proxy is replaced by a fresh one for the same pid - or the handler fails (and with it the session) when that spawn fails
+                    claims['failed_proxy_is_replaced_for_the_same_pid_or_the_session_fails'] = ('proxy77' in stopped) and ((res_ok and len(spawned) == 1 and spawned[0][1] == 77 and tab == {77: spawned[0][2], 78: 'proxy78'}) or (not res_ok and bool(failed)))
+                    seen.add('proxy_failed')
+                lp.record(ctx, name, s, claims, 'C20.child_exit', on_cex=cex)
+    for w in ('transport_gone', 'proxy_exit', 'proxy_failed'):
+        ctx.note_witness('C20.child_exit.' + w, w in seen)
+
+
+def replay_child(rp):
+    import C20_announce_replay
+    return C20_announce_replay.replay_child(rp)
 
 
 def replay(rp):
